@@ -190,6 +190,8 @@ pub struct GenCfg {
     pub max_defs: usize,
     /// weight multiplier for objects/unions of objects (C11, C12 lean on them)
     pub object_bias: u32,
+    /// only `null` among the nullish types (C05's fragment)
+    pub only_null: bool,
 }
 
 impl Default for GenCfg {
@@ -206,6 +208,7 @@ impl Default for GenCfg {
             max_depth: 4,
             max_defs: 3,
             object_bias: 1,
+            only_null: false,
         }
     }
 }
@@ -250,7 +253,7 @@ impl<'c> G<'c> {
             3 => D::StrLit(s.pick(&STR_LITS).to_string()),
             4 => D::NumLit(s.pick(&NUM_LITS).to_string()),
             5 => D::BoolLit(s.below(2) == 1),
-            6 => match s.below(3) {
+            6 => match if self.cfg.only_null { let _ = s.below(3); 0 } else { s.below(3) } {
                 0 => D::Null,
                 1 => D::Undefined,
                 _ => D::Void,
@@ -557,4 +560,179 @@ pub fn gen_type(s: &mut Src, cfg: &GenCfg, env_size: usize, depth: usize) -> D {
         ndefs_total: env_size,
     };
     g.ty(s, depth, false)
+}
+
+/// One structural edit of a type (used to build pairs whose relation hinges on one detail).
+pub fn mutate_type(d: &D, s: &mut Src, cfg: &GenCfg, env_size: usize) -> D {
+    // descend with probability 1/2 when there are children
+    let descend = s.chance(1, 2);
+    match d {
+        D::Array(x) if descend => D::Array(Box::new(mutate_type(x, s, cfg, env_size))),
+        D::Tuple(p, r) if descend && (!p.is_empty() || r.is_some()) => {
+            let n = p.len() + r.iter().count();
+            let i = s.below(n);
+            let mut p2 = p.clone();
+            let mut r2 = r.clone();
+            if i < p.len() {
+                p2[i] = mutate_type(&p[i], s, cfg, env_size);
+            } else {
+                r2 = Some(Box::new(mutate_type(r.as_ref().unwrap(), s, cfg, env_size)));
+            }
+            D::Tuple(p2, r2)
+        }
+        D::Object { props, index } if descend && (!props.is_empty() || index.is_some()) => {
+            let n = props.len() + index.iter().count();
+            let i = s.below(n);
+            let mut props2 = props.clone();
+            let mut index2 = index.clone();
+            if i < props.len() {
+                props2[i].ty = mutate_type(&props[i].ty, s, cfg, env_size);
+            } else {
+                index2 = Some(Box::new(mutate_type(index.as_ref().unwrap(), s, cfg, env_size)));
+            }
+            D::Object { props: props2, index: index2 }
+        }
+        D::Union(ms) if descend => {
+            let i = s.below(ms.len());
+            let mut m2 = ms.clone();
+            m2[i] = mutate_type(&ms[i], s, cfg, env_size);
+            D::Union(m2)
+        }
+        D::Inter(ms) if descend => {
+            let i = s.below(ms.len());
+            let mut m2 = ms.clone();
+            m2[i] = mutate_type(&ms[i], s, cfg, env_size);
+            D::Inter(m2)
+        }
+        _ => edit_type_here(d, s, cfg, env_size),
+    }
+}
+
+fn edit_type_here(d: &D, s: &mut Src, cfg: &GenCfg, env_size: usize) -> D {
+    match d {
+        D::StrLit(_) => match s.below(3) {
+            0 => D::Str,
+            1 => D::StrLit(s.pick(&STR_LITS).to_string()),
+            _ => D::Union(vec![d.clone(), D::StrLit(s.pick(&STR_LITS).to_string())]),
+        },
+        D::Str => match s.below(3) {
+            0 => D::StrLit(s.pick(&STR_LITS).to_string()),
+            1 => D::Union(vec![D::Str, D::Num]),
+            _ => D::Num,
+        },
+        D::NumLit(_) => match s.below(2) {
+            0 => D::Num,
+            _ => D::NumLit(s.pick(&NUM_LITS).to_string()),
+        },
+        D::Num => match s.below(3) {
+            0 => D::NumLit(s.pick(&NUM_LITS).to_string()),
+            1 => D::Union(vec![D::Num, D::Null]),
+            _ => D::Str,
+        },
+        D::Bool => D::BoolLit(s.below(2) == 1),
+        D::BoolLit(b) => match s.below(2) {
+            0 => D::Bool,
+            _ => D::BoolLit(!*b),
+        },
+        D::Array(x) => match s.below(3) {
+            0 => D::Tuple(vec![(**x).clone()], Some(x.clone())),
+            1 => D::Tuple(vec![(**x).clone(), (**x).clone()], None),
+            _ => D::Tuple(vec![], Some(x.clone())),
+        },
+        D::Tuple(p, r) => match s.below(5) {
+            0 => {
+                let mut p2 = p.clone();
+                p2.push(gen_type(s, cfg, env_size, 0));
+                D::Tuple(p2, r.clone())
+            }
+            1 if !p.is_empty() => {
+                let mut p2 = p.clone();
+                p2.pop();
+                D::Tuple(p2, r.clone())
+            }
+            2 => match r {
+                Some(_) => D::Tuple(p.clone(), None),
+                None => D::Tuple(p.clone(), Some(Box::new(p.last().cloned().unwrap_or(D::Str)))),
+            },
+            3 if !p.is_empty() => D::Array(Box::new(p[0].clone())),
+            _ => {
+                // rest moved into the prefix
+                let mut p2 = p.clone();
+                if let Some(r) = r {
+                    p2.push((**r).clone());
+                }
+                D::Tuple(p2, r.clone())
+            }
+        },
+        D::Object { props, index } => match s.below(6) {
+            0 if !props.is_empty() => {
+                let i = s.below(props.len());
+                let mut p2 = props.clone();
+                p2[i].optional = !p2[i].optional;
+                D::Object { props: p2, index: index.clone() }
+            }
+            1 if !props.is_empty() => {
+                let i = s.below(props.len());
+                let mut p2 = props.clone();
+                p2.remove(i);
+                D::Object { props: p2, index: index.clone() }
+            }
+            2 => {
+                let key = s.pick(&KEYS).to_string();
+                let mut p2 = props.clone();
+                if !p2.iter().any(|p| p.key == key) {
+                    let optional = s.chance(1, 2);
+                    p2.push(Prop { key, ty: gen_type(s, cfg, env_size, 0), optional });
+                }
+                D::Object { props: p2, index: index.clone() }
+            }
+            3 => match index {
+                Some(_) => D::Object { props: props.clone(), index: None },
+                None => D::Object { props: props.clone(), index: Some(Box::new(gen_type(s, cfg, env_size, 0))) },
+            },
+            4 if !props.is_empty() => {
+                let i = s.below(props.len());
+                let mut p2 = props.clone();
+                p2[i].ty = gen_type(s, cfg, env_size, 0);
+                D::Object { props: p2, index: index.clone() }
+            }
+            _ => D::Union(vec![d.clone(), D::Null]),
+        },
+        D::Union(ms) => match s.below(3) {
+            0 if ms.len() > 1 => {
+                let i = s.below(ms.len());
+                let mut m2 = ms.clone();
+                m2.remove(i);
+                if m2.len() == 1 { m2.pop().unwrap() } else { D::Union(m2) }
+            }
+            1 => {
+                let mut m2 = ms.clone();
+                m2.push(gen_type(s, cfg, env_size, 1));
+                D::Union(m2)
+            }
+            _ => {
+                let mut m2 = ms.clone();
+                m2.reverse();
+                D::Union(m2)
+            }
+        },
+        D::Inter(ms) => match s.below(2) {
+            0 if ms.len() > 1 => {
+                let mut m2 = ms.clone();
+                m2.pop();
+                if m2.len() == 1 { m2.pop().unwrap() } else { D::Inter(m2) }
+            }
+            _ => {
+                let mut m2 = ms.clone();
+                m2.push(D::Object { props: vec![Prop { key: s.pick(&KEYS).to_string(), ty: gen_type(s, cfg, env_size, 0), optional: s.chance(1, 2) }], index: None });
+                D::Inter(m2)
+            }
+        },
+        D::Null => D::Union(vec![D::Null, D::Str]),
+        D::Ref(i) => match s.below(2) {
+            0 => D::Union(vec![D::Ref(*i), D::Null]),
+            _ => D::Array(Box::new(D::Ref(*i))),
+        },
+        other => D::Union(vec![other.clone(), D::Str]),
+    }
 }
